@@ -42,13 +42,18 @@ func processReadBuf(rb []byte, searchDepth int) []byte {
 }
 
 func (c *Channel) read() {
+	// capture this open's signalling channels, a later Open replaces them
+	done, readLoopDone := c.done, c.readLoopDone
+
 	defer func() {
 		c.readLoopExited.Store(true)
+
+		close(readLoopDone)
 	}()
 
 	for {
 		select {
-		case <-c.done:
+		case <-done:
 			return
 		default:
 		}
@@ -56,10 +61,9 @@ func (c *Channel) read() {
 		b, err := c.t.Read()
 		if err != nil {
 			select {
-			case <-c.done:
-				// this prevents us from ever writing to, what would in this case be, a closed
-				// errs channel. also if we are "done" we probably only got an error about transport
-				// dying so we can safely ignore that
+			case <-done:
+				// if we are "done" we probably only got an error about transport dying so we can
+				// safely ignore that
 				return
 			default:
 			}
@@ -77,7 +81,12 @@ func (c *Channel) read() {
 				"encountered error reading from transport during channel read loop. error: %s", err,
 			)
 
-			c.Errs <- err
+			select {
+			case c.Errs <- err:
+			case <-done:
+				// closed while waiting for an operation to pick the error up
+				return
+			}
 
 			time.Sleep(c.ReadDelay)
 
